@@ -116,7 +116,7 @@ class GradientCase(Case):
             A = env.reals("a", (R, F, N), lo=-SL, hi=SL)
             c = env.reals("c", (R, F), lo=-SL, hi=SL)
         flags = {k: env.flag(f"nan_{k[0]}_{'u' if k[1] < 0 else k[1]}") for k in self.flag_keys()}
-        return {"w": w, "ow": ow, "A": A, "c": c, "flags": flags}
+        return {"w": w, "ow": ow, "A": A, "c": c, "flags": flags, "pmin": self.pmin, "rmin": self.rmin}
 
     # ---- the real code
     def run(self, env, inp):
@@ -127,7 +127,11 @@ class GradientCase(Case):
         inject(cfg.objectives, weights=env.arr(inp["ow"], writeable=False))
         pm = ens.stub_manager()
         ens.set_samples(lambda s: env.const(self.design))
-        ev = ens.AffineEvaluator(env, inp["A"], inp["c"], inp["flags"], self.K)
+        if not isinstance(inp["pmin"], int):
+            inject(cfg.gradient, perturbation_min_success=env.num(inp["pmin"]))
+        if not isinstance(inp["rmin"], int):
+            inject(cfg.realizations, realization_min_success=env.num(inp["rmin"]))
+        ev = ens.AffineEvaluator(env, inp["A"], inp["c"], inp["flags"], self.K, nan_col=getattr(self, "nan_col", None))
         ee = EnsembleEvaluator(cfg, None, ev, pm)
         x = env.const(self.xv)
         if self.split:
@@ -148,14 +152,22 @@ class GradientCase(Case):
         w, ow, A, c, flags = list(inp["w"]), list(inp["ow"]), inp["A"], inp["c"], inp["flags"]
         fr, gr = oc.value["f"], oc.value["g"]
         props = []
-        failed = ens.fail_flags_gradients(flags, R, P, self.pmin)
+        pmin, rmin = inp["pmin"], inp["rmin"]
+        pminr = pmin if isinstance(pmin, int) else pmin._real()
+        rminr = rmin if isinstance(rmin, int) else rmin._real()
+        failed = ens.fail_flags_gradients(flags, R, P, pminr)
         rf = vals(gr.realizations.failed_realizations)
-        props.append(("failed_flags", all_of(rf[r] == failed[r] for r in range(R))))
+        props.append(("gradient.failed_flags", all_of(rf[r] == failed[r] for r in range(R))))
+        ffailed0 = ens.fail_flags_functions(flags, R)
+        rff = vals(fr.realizations.failed_realizations)
+        props.append(("function.failed_flags", all_of(rff[r] == ffailed0[r] for r in range(R))))
+        fnok = ssum([ite(x, ZERO, ONE) for x in ffailed0])
+        props.append(("function.none_iff_too_few", (fnok < rminr) if fr.functions is None else (fnok >= rminr)))
         nok = ssum([ite(x, ZERO, ONE) for x in failed])
         if gr.gradients is None:
-            props.append(("none_iff_too_few", nok < self.rmin))
+            props.append(("gradient.none_iff_too_few", nok < rminr))
             return props
-        props.append(("none_iff_too_few", nok >= self.rmin))
+        props.append(("gradient.none_iff_too_few", nok >= rminr))
         # concrete perturbation differences as reported
         pv = np.asarray(vals(gr.evaluations.perturbed_variables))
         xv = np.asarray(vals(gr.evaluations.variables))
